@@ -148,12 +148,16 @@ def signed_int_to_bytes(bytes):
     return struct.pack('<i', bytes)
 
 
+VALID_BITS_PER_VOXEL = (0.25, 0.5, 1, 2, 4, 8, 16, 32)
+VALID_BLOCK_DIMENSIONS = tuple(2 ** n for n in range(2, 14))
+
+
 def define_blockshape_2d(bits_per_voxel, blockshape):
     assert blockshape[0] == 1
-    return define_blockshape_3d(bits_per_voxel, blockshape)
+    return define_blockshape_3d(bits_per_voxel, blockshape, is_2d=True)
 
 
-def define_blockshape_3d(bits_per_voxel, blockshape):
+def define_blockshape_3d(bits_per_voxel, blockshape, is_2d=False):
     if sum([1 for n in list(blockshape) + [bits_per_voxel] if n == -1]) > 1:
         raise ValueError("Blockshape is underdefined")
 
@@ -176,6 +180,19 @@ def define_blockshape_3d(bits_per_voxel, blockshape):
                                                             (blockshape[0] * blockshape[1] * bits_per_voxel)))
         else:
             assert(bits_per_voxel * blockshape[0] * blockshape[1] * blockshape[2] == DISK_BLOCK_BYTES * 8)
+
+    # Whatever was resolved must be a layout the file format can express: anything else used to produce
+    # a file which could not be read back (or read back wrongly)
+    min_bits_per_voxel = 1 if is_2d else 0.25   # a 2D unit (4x4 samples) needs at least 16 bits
+    if (bits_per_voxel not in VALID_BITS_PER_VOXEL
+            or bits_per_voxel < min_bits_per_voxel
+            or (blockshape[0] != 1 if is_2d else blockshape[0] not in VALID_BLOCK_DIMENSIONS)
+            or blockshape[1] not in VALID_BLOCK_DIMENSIONS
+            or blockshape[2] not in VALID_BLOCK_DIMENSIONS
+            or bits_per_voxel * blockshape[0] * blockshape[1] * blockshape[2] != DISK_BLOCK_BYTES * 8):
+        raise ValueError(f"Invalid compression setting: bits_per_voxel={bits_per_voxel}, blockshape={tuple(blockshape)}. "
+                         f"bits_per_voxel must be one of {VALID_BITS_PER_VOXEL}, block dimensions powers of two "
+                         f"of at least 4, and one block must hold exactly {DISK_BLOCK_BYTES * 8} bits")
     return bits_per_voxel, blockshape
 
 
